@@ -170,7 +170,11 @@ func vhC24FSResponses() {
 	}
 	g := serve("GET")
 	hd := serve("HEAD")
+	// afterwards a plain GET (readers are recycled between responses)
+	hdrs = ""
+	plain := serve("GET")
 	n := len(data)
+	vAssert("plain-get-after-range-requests-is-the-full-file", plain.ok && plain.status == 200 && plain.body == string(data) && plain.contentLen == c24Itoa(n))
 	vAssert("responses-parse", g.ok && hd.ok)
 	vAssert("head-same-status-and-headers-as-get", hd.status == g.status && hd.contentLen == g.contentLen && hd.contentRange == g.contentRange && hd.lastModified == g.lastModified && hd.acceptRanges == g.acceptRanges)
 	vAssert("head-has-no-body", hd.body == "")
